@@ -429,3 +429,107 @@ def expander_records(n_atoms=36, count=2, tag='expander'):
         out.append({'id': f'expander{n_atoms}#{i}', 'atoms': atoms, 'bonds': [(pos[a], pos[b], 1) for a, b in g.edges],
                     'tet': [], 'ct': [], 'al': []})
     return out
+
+
+# ---- symmetric ring systems (class: ties between same-class atoms of two constitutionally identical rings) ---------------------------
+
+def _arm_patterns(L, r=None, extra=0):
+    """decorations of a ring arm of L atoms: list of (name, elements[L], carbonyl positions); every single O / N / S position, every
+    adjacent N-N pair, every C=O position, plus `extra` seeded two-substituent patterns"""
+    pats = [('c', ['C'] * L, ())]
+    for j in range(L):
+        for x in ('O', 'N', 'S'):
+            e = ['C'] * L
+            e[j] = x
+            pats.append((f'{x}{j + 1}', e, ()))
+        pats.append((f'CO{j + 1}', ['C'] * L, (j,)))
+    for j in range(L - 1):
+        e = ['C'] * L
+        e[j] = e[j + 1] = 'N'
+        pats.append((f'NN{j + 1}', e, ()))
+    if r is not None and L >= 3:
+        for _ in range(extra):
+            i, j = sorted(r.sample(range(L), 2))
+            e = ['C'] * L
+            e[i] = r.choice(('O', 'N', 'S'))
+            if j > i + 1 or e[i] == 'N':
+                e[j] = r.choice(('O', 'N', 'S')) if j > i + 1 else 'N'
+            co = (j,) if e[j] == 'C' else ()
+            pats.append((f'x{"".join(e)}{"o%d" % j if co else ""}', e, co))
+    return pats
+
+
+def _assemble(ident, core, arms):
+    """core: list of core atom symbols + core bonds; arms: [(from_core, to_core, elements, carbonyls)] -> record"""
+    atoms = [(s, None, 0, False, None) for s in core[0]]
+    bonds = list(core[1])
+    for a, b, els, co in arms:
+        prev = a
+        first = len(atoms)
+        for s in els:
+            atoms.append((s, None, 0, False, None))
+            bonds.append((prev, len(atoms) - 1, 1))
+            prev = len(atoms) - 1
+        bonds.append((prev, b, 1))
+        for j in co:
+            atoms.append(('O', None, 0, False, None))
+            bonds.append((first + j, len(atoms) - 1, 2))
+    return {'id': ident, 'atoms': atoms, 'bonds': bonds, 'tet': [], 'ct': [], 'al': []}
+
+
+def symmetric_ring_records(extra=1, tag='symrings'):
+    """spiro / fused / bridged bicyclic and dispiro tricyclic systems, ring sizes 3-7, whose two outer rings are constitutionally
+    identical and carry the same hetero decoration (O, N, S, N-N, C=O at every position; `extra` seeded two-substituent patterns per
+    arm length; for fused and bridged systems in both relative orientations).  No stereo labels, every block has cyclomatic number <= 2:
+    outside both documented gaps.  Valence-valid ones only.  Ids are content-derived (identical in every tier / seed for the fixed part)."""
+    r = D.rnd(tag)
+    out = []
+
+    def emit(rec):
+        try:
+            m, _ = build_rec(rec)
+        except ValueError:
+            return
+        if not m.check_valence():
+            out.append(rec)
+
+    for k in range(3, 8):  # ring size
+        # spiro[k-1.k-1]: arm of k-1 atoms from the spiro atom back to it
+        for name, els, co in _arm_patterns(k - 1, r, extra):
+            emit(_assemble(f'sym:spiro{k}:{name}', (['C'], []), [(0, 0, els, co), (0, 0, els, co)]))
+        # fused bicyclo[k-2.k-2.0]
+        if k >= 3:
+            for name, els, co in _arm_patterns(k - 2, r, extra):
+                rco = tuple(k - 3 - j for j in co)
+                emit(_assemble(f'sym:fused{k}:{name}:p', (['C', 'C'], [(0, 1, 1)]), [(0, 1, els, co), (0, 1, els, co)]))
+                if els != els[::-1] or co != rco:
+                    emit(_assemble(f'sym:fused{k}:{name}:a', (['C', 'C'], [(0, 1, 1)]), [(0, 1, els, co), (0, 1, els[::-1], rco)]))
+        # dispiro: ring - spiro - middle ring (4 or 6) - spiro - ring
+        if k <= 6:
+            for mid in (4, 6):
+                h = (mid - 2) // 2
+                for name, els, co in _arm_patterns(k - 1):
+                    emit(_assemble(f'sym:dispiro{k}.{mid}:{name}', (['C', 'C'], []),
+                                   [(0, 0, els, co), (1, 1, els, co), (0, 1, ['C'] * h, ()), (0, 1, ['C'] * h, ())]))
+    # bridged bicyclo[p.p.q], rings of size p+q+2 <= 7
+    for p in range(1, 5):
+        for q in (1, 2):
+            if p + q + 2 > 7:
+                continue
+            for name, els, co in _arm_patterns(p, r, extra if p >= 3 else 0):
+                rco = tuple(p - 1 - j for j in co)
+                core = (['C', 'C'], [])
+                emit(_assemble(f'sym:bridged{p}.{p}.{q}:{name}:p', core, [(0, 1, els, co), (0, 1, els, co), (0, 1, ['C'] * q, ())]))
+                if els != els[::-1] or co != rco:
+                    emit(_assemble(f'sym:bridged{p}.{p}.{q}:{name}:a', core, [(0, 1, els, co), (0, 1, els[::-1], rco), (0, 1, ['C'] * q, ())]))
+    return out
+
+
+# symmetric biaryl / fused aromatic systems (fixed)
+BIARYL_SMILES = (
+    'c1ccccc1-c1ccccc1', 'c1ccncc1-c1ccncc1', 'n1ccccc1-c1ccccn1', 'c1cnccc1-c1cccnc1', 'c1ccsc1-c1ccsc1', 's1cccc1-c1cccs1', 'o1cccc1-c1ccco1',
+    'c1cncnc1-c1cncnc1', 'n1cccnc1-c1ncccn1', 'c1ccn(c1)-n1cccc1', 'c1cc[nH]c1-c1cc[nH]c1', 'C1CCCCC1C1CCCCC1', 'C1CC1C1CC1', 'O1CCCC1C1CCCO1', 'C1COCC1C1COCC1',
+    'c1ccc2ccccc2c1', 'c1cnc2cccnc2c1', 'c1ccc2ncccc2n1', 'n1ccc2ccncc2c1', 'c1cc2ccsc2s1', 'c1cc2sccc2s1', 'c1ccc2c(c1)c1ccccc12', 'c1ccc2c(c1)oc1ccccc12',
+    'c1ccc2c(c1)[nH]c1ccccc12', 'c1ccc2c(c1)Cc1ccccc12', 'c1ccc(cc1)Cc1ccccc1', 'c1ccc(cc1)Oc1ccccc1', 'c1ccc(cc1)N=Nc1ccccc1', 'c1ccc(cc1)C(=O)c1ccccc1',
+    'O=C1CCC(=O)C12C(=O)CCC2=O', 'C1CC2(C1)CC1(C2)CCC1', 'O=C1NC(=O)C12C(=O)NC2=O', 'C12(CNNCC1)CNNCC2', 'C1OCC12COC2', 'C1NCC12CNC2',
+)
